@@ -19,6 +19,8 @@ EventOK(e) ==
     /\ ~e.panic
     /\ CASE e.kind = "algs" -> TRUE
          [] e.kind = "validate" -> e.accepted = Accept(e.c.key)
+         \* (a file that also lists an entry which is not a key, asked for "the" key: more than one entry, or no key at all - never answered)
+         [] e.kind = "loadkey" /\ "junk" \in DOMAIN e /\ e.junk -> ~e.ok
          [] e.kind = "loadkey" -> LET w == LoadKeyRule(e.c.set, e.c.req) IN e.ok = w.ok /\ (w.ok => e.idx = w.idx)
          [] e.kind = "newkeypair" ->
                IF e.alg \in {"PS512", "ES512", "EdDSA"}
